@@ -149,7 +149,8 @@ theorem parens_invariant {es : List Expr} {ts : List Tok} (h : RendersSeq es ts)
   rendersSeq_parseTokens h
 
 /-- **Whitespace (character level).**  `Spaced ts s`: the string `s` writes the tokens `ts` with any amount
-of the lexer's whitespace (space, tab, newline) before, between and after them (two hop predicates need at
+of whitespace (every `char::is_whitespace` character: space, tab, newline, carriage return, NBSP, …) before,
+between and after them (two hop predicates need at
 least one).  The lexer returns exactly `ts` followed by EOI. -/
 theorem ws_invariant {ts : List Tok} {s : List Char} (h : Spaced ts s) : lexKinds s = ts ++ [.eoi] :=
   spaced_lex h 0
@@ -177,7 +178,7 @@ theorem parens_ws_same_language {es : List Expr} {ts₁ ts₂ : List Tok} {s₁ 
     exact ⟨es, rfl, (policy_iff_lang _ _).mpr h⟩
 
 -- non-vacuity: "((1)|2)+" and " ( 1 | (2) ) +" are renderings of (1|2)+
-example : parsePolicy "((1)|2)+ 3".toList = parsePolicy " ( 1\t| (2) )\n+ ((3))".toList := by decide +kernel
+example : parsePolicy "((1)|2)+ 3".toList = parsePolicy " ( 1\t| (2) )\r\n+ ((3))".toList := by decide +kernel
 example : RendersSeq [.oneOrMore (.or (.pred ⟨1, none, .any⟩) (.pred ⟨2, none, .any⟩))]
     [.lparen, .lparen, .pred ['1'], .rparen, .or, .pred ['2'], .rparen, .plus] :=
   .cons (top := false) (tss := [])
